@@ -170,7 +170,7 @@ func (m *machine) addTable(t *rapid.T, i int) {
 	tb := &tbl{parent: -1, name: label}
 	how := "fresh"
 	if i > 0 {
-		how = rapid.SampledFrom([]string{"nested", "nested", "nested", "extends", "shortens", "sibling", "same", "fresh", "fresh"}).Draw(t, label+".how")
+		how = rapid.SampledFrom([]string{"nested", "nested", "nested", "extends", "shortens", "sibling", "sibling", "sibling", "same", "fresh", "fresh"}).Draw(t, label+".how")
 	}
 	o := m.tables
 	switch how {
@@ -610,7 +610,7 @@ func (m *machine) finish() {
 
 func prop(t *rapid.T) {
 	m := &machine{t: t, und: &recStore{Store: memorydb.New()}, model: kvmodel.New(), cls: map[string]bool{}}
-	n := rapid.IntRange(1, 3).Draw(t, "ntables")
+	n := rapid.SampledFrom([]int{1, 2, 2, 3, 3, 3}).Draw(t, "ntables")
 	for i := 0; i < n; i++ {
 		m.addTable(t, i)
 	}
@@ -677,6 +677,10 @@ func TestC24CompactPrefixes(t *testing.T) {
 			}
 		}
 	}
+	// offered first: the driver needs a sample list even when the enumeration fails early
+	stc.Sample(func() interface{} {
+		return map[string]interface{}{"prefixes": len(prefixes), "domain": "all prefixes of length 0-1, length 2-3 over {00,01,7f,fe,ff}; root tables and nested pairs"}
+	})
 	covers := func(c compactCall, p []byte) bool {
 		if c.start != nil && bytes.Compare(c.start, p) > 0 {
 			return false
@@ -708,11 +712,9 @@ func TestC24CompactPrefixes(t *testing.T) {
 		}
 	}
 	stc.Exhaustive(true)
-	stc.Sample(func() interface{} {
-		return map[string]interface{}{"prefixes": len(prefixes), "domain": "all prefixes of length 0-1, length 2-3 over {00,01,7f,fe,ff}; root tables and nested pairs"}
-	})
 }
 
 func FuzzC24(f *testing.F) {
+	kvmodel.SeedCorpus(f)
 	f.Fuzz(rapid.MakeFuzz(prop))
 }
